@@ -186,7 +186,7 @@ FAMILY_HOOKS = {
     ("hv", "ring.go"): [], ("hv", "deliver.go"): [], ("hv", "clusternet.go"): [],
     ("hv", "proc.go"): ["actor/hooks.go"], ("hv", "events.go"): ["actor/hooks.go"],
     ("hv", "corner09.go"): ["actor/hooks.go"], ("hv", "registry.go"): ["actor/hooks.go", "actor/registry_hooks.go"],
-    ("hv", "response.go"): ["actor/hooks.go"], ("hv", "tree.go"): ["actor/hooks.go", "actor/tree.go"],
+    ("hv", "response.go"): ["actor/hooks.go", "actor/registry_hooks.go"], ("hv", "tree.go"): ["actor/hooks.go", "actor/tree.go"],
     ("hv", "wire.go"): ["remote/hooks.go", "remote/buf.go"],
     ("hv", "peer.go"): ["actor/hooks.go", "remote/hooks.go", "remote/buf.go", "remote/remote17.go", "actor/remote17.go"],
     ("hv", "cluster.go"): ["cluster/hooks.go"],
@@ -300,6 +300,13 @@ def build_harness(work, binary="hv", tags="verif", extra_overlay=None, fams=None
     cmd = ["go", "build", "-modfile", modfile, "-tags", tags, "-overlay", overlay,
            "-o", out_bin, "./cmd/" + binary]
     rc, out = sh(cmd, cwd=HARNESS, env=dict(GOENV), timeout=900)
+    if rc != 0 and hooks is not None and re.search(r"Verif\w+", out):
+        # the table of needed hook files may be out of date: retry with every hook file
+        # (still only the needed families)
+        overlay = make_overlay(work, extra_overlay, only_hooks=None)
+        cmd[cmd.index("-overlay") + 1] = overlay
+        rc, out2 = sh(cmd, cwd=HARNESS, env=dict(GOENV), timeout=900)
+        out = out2 if rc == 0 else out + "\n--- retry with all hook files ---\n" + out2
     return (out_bin if rc == 0 else None), out
 
 
